@@ -154,7 +154,7 @@ def base_case(rng, tmpls=None, p_focused=0.4, **kw):
     data, nodes, lits = S.gen_typed_data(rng, n_iri=rng.randint(2, 5), n_bn=rng.randint(0, 1), n_lit=rng.randint(0, 2), n_triples=rng.randint(2, 12))
     if rng.random() < p_focused:
         # focused case: one mechanism only, so that a wrong verdict of one shape is not masked by other shapes
-        tmpl = rng.choice(tmpls or [S.tmpl_custom, S.tmpl_severity, S.tmpl_qualified, S.tmpl_nested_severity])
+        tmpl = rng.choice(tmpls or [S.tmpl_custom, S.tmpl_severity, S.tmpl_qualified, S.tmpl_nested_severity, S.tmpl_shared])
         shapes = tmpl(rng, nodes, lits)
         if rng.random() < 0.3:
             shapes[0]["targets"]["nodes"] = shapes[0]["targets"]["nodes"][:1]
@@ -162,7 +162,12 @@ def base_case(rng, tmpls=None, p_focused=0.4, **kw):
             # several values per focus node and predicate: counting constraints are decided by more than one value
             for f in shapes[0]["targets"]["nodes"]:
                 for _ in range(rng.randint(2, 4)):
-                    data.add((f, URIRef(rng.choice(S.PREDS[:2])), rng.choice(nodes + lits)))
+                    o_ = rng.choice(nodes + lits)
+                    data.add((f, URIRef(rng.choice(S.PREDS[:2])), o_))
+                    if tmpl is S.tmpl_shared or rng.random() < 0.3:
+                        # the same node as value of both predicates: a shape may meet it twice in one run
+                        data.add((f, URIRef(S.PREDS[0]), o_))
+                        data.add((f, URIRef(S.PREDS[1]), o_))
     else:
         shapes = S.gen_shapes(rng, nodes, lits, n_shapes=rng.randint(2, 7), **kw)
         S.add_templates(rng, shapes, nodes, lits)
